@@ -173,6 +173,10 @@ func applyRewrite(rw Rewrite) ([]byte, error) {
 		if n == 0 {
 			return nil, fmt.Errorf("call %s.%s not found in %s", cr.Recv, cr.Method, rw.File)
 		}
+		if cr.PkgFunc {
+			// keep the package import in use when every call of it was redirected
+			fmt.Fprintf(&extra, "\nvar _ = %s.%s\n", cr.Recv, cr.Method)
+		}
 	}
 	if rw.RedirectTime {
 		changed := false
